@@ -24,6 +24,10 @@ CLAIMED = {
  'C15': ('proof', 'every documented read accessor of RunningOrder / Story / Item under RO_Inv: safety obligations (no exception on any path) + ensures equal to a direct read of the XML; RO_Inv (incl. numeric durations / parseable times where present) is preserved by every merge, which covers every reachable state', '5/C15'),
  'C16': ('proof', '_get_story_duration (precedence), _get_story_offsets (loop invariant: running total = prefix sum, dict keyed by story element), Story.offset/start_time/end_time, RunningOrder.start_time/end_time/duration against recursive spec functions; floats treated as reals', '5/C16'),
  'C17': ('proof', 'Story.script/body as filtered comprehensions checked pointwise (filter and map agree with the spec on every element), _is_technical_note, RunningOrder.script/body as the in-order concatenation of the per-story lists; string primitives uninterpreted but shared by code and spec', '5/C17'),
+ 'C04': ('proof', 'carried stories/items arrive as deep copies (A-COPY isomorphism) at their place in every carrying merge; StorySend._convert_story_send_to_story_tag proved with two loop invariants (storyBody children spliced in place, only direct storyItems renamed); roReplace and roMetadataReplace content clauses', '5/C04'),
+ 'C14': ('proof', 'envelope clauses on every merge (exactly one roCreate, messageID and roID unchanged, at most one completion record, RO_Inv preserved) are discharged; the read-back step itself is the assumed library contract A-ET-RT, conformance-tested on seeded random trees and on reachable states in the bounded real-code check', '5/C14'),
+ 'C18': ('proof', 'from_file / from_string / from_s3 share one body up to the parse call (assumed contract A-ET-PARSE / A-S3: content -> tree); MosReader.from_* store message id, roID, class and the constructor of that class with the same arguments; mos_object restores through it (26 class variants); get_mos_files proved with nested loop invariants and ghost counters (every key with the suffix, all pages, in order)', '5/C18'),
+ 'C19': ('proof', 'CLI.__call__ (any exception -> stderr message, status 2), detect_or_inspect (per-file loop: one Invalid line or the detect line with the class the library assigns, inspect outline, the scan always continues), do_merge (collection built with the given flags, output is the serialisation of the merged running order, to stdout or -o); the argparse option wiring is enumerated exhaustively by the bounded real-code check, not proved', '5/C19'),
 }
 REASON_TODO = 'check not built yet (build in progress); not a statement about reachability of the technique'
 m = {
